@@ -979,11 +979,22 @@ def oracle_c05(ctx, budget_s):
         # (above all one that feeds a crossed derived factor), and preambles
         fs = OD._fmap(desc)
         crossed = set(x for cr in OD._crossings(desc["block"]) for x in cr)
-        return any(c["k"] == "Exclude" and fs[c["f"]]["window"] is None and c["f"] not in crossed
-                   for c in D.all_constraints(desc["block"]))
+        if any(c["k"] == "Exclude" and fs[c["f"]]["window"] is None and c["f"] not in crossed
+               for c in D.all_constraints(desc["block"])):
+            return True
+        # ... and an Exclude on a crossed derived level next to a preamble (the preamble trial is drawn freely and
+        # only the rejection step removes the excluded level there)
+        return any(c["k"] == "Exclude" and fs[c["f"]]["window"] is not None and c["f"] in crossed
+                   for c in D.all_constraints(desc["block"])) and any(OD._is_complex(fs, f) for f in crossed)
     for case in gen_cases(ctx, budget_s, max_trials=5, prefer=first):
         if not case.random_ok(bound=2500):
             ctx.count("skip.random-space")
+            if first(case.desc):
+                # too many candidates to walk the draw tree: at least every accepted candidate must be a valid sequence
+                OD.check_sound(ctx, case, "RandomGen", 12, "C05")
+                ctx.count("C05.sound-only")
+                if ctx.failures:
+                    return
             continue
         blk = case.fresh_block()
         if quiet(blk.show_errors):
